@@ -143,6 +143,32 @@ def run_history(history, last_via_ctor_first=False):
     return rec
 
 
+SPELLINGS = {"K1": ["a1", ("a1",)], "K2": [("a1", "a2"), ("a2", "a1")]}
+
+
+def run_ctor_batch(calls_):
+    """Grid(ds, metrics={...}) with several entries; entries for the same axis set use different spellings of the key"""
+    import xgcm
+
+    ds = make_ds()
+    coords = {"a1": {"center": "d1", "left": "d2", "outer": "d5"}, "a2": {"center": "d3", "left": "d4"}}
+    metrics, used = {}, {}
+    for c in calls_:
+        k = used.get(c["k"], 0)
+        used[c["k"]] = k + 1
+        metrics[SPELLINGS[c["k"]][k]] = list(c["vs"])
+    out, grid = {"k": "ok"}, None
+    try:
+        grid = xgcm.Grid(ds, coords=coords, periodic=False, autoparse_metadata=False, metrics=metrics)
+    except ValueError as ex:
+        out = {"k": "refused", "msg": str(ex)[:120]}
+    except Exception as ex:
+        out = {"k": "error", "cls": type(ex).__name__, "msg": str(ex)[:120]}
+    rec = {"calls": [{"k": c["k"], "vs": list(c["vs"])} for c in calls_], "out": out,
+           "post": project(grid) if grid is not None else [], "gm": answers(grid) if grid is not None else []}
+    return rec
+
+
 def _job(args):
     hist, call = args
     return run_history(hist + [call])
@@ -243,6 +269,19 @@ def run(ctx):
         if level and ctx.validate("C16Trace", level, jvms=8, chunk=2500):
             stopped_at = d + 1
             break
+    # constructors with two or three `metrics=` entries (at most two spellings per axis set)
+    rngc = random.Random(ctx.seed * 7919 + 16)
+    noow = [c for c in allcalls if not c["ow"]]
+    batches = []
+    while len(batches) < (1500 if thorough else 160):
+        b = [dict(rngc.choice(noow)) for _ in range(rngc.choice([2, 2, 3]))]
+        if all(sum(1 for c in b if c["k"] == k) <= 2 for k in KEYS):
+            batches.append(b)
+    for r in ctx.pmap(run_ctor_batch, batches, chunksize=10, limit=10.0):
+        cid += 1
+        r.update({"id": cid, "ev": "CtorBatch", "pool": pool_list, "history_len": 0, "call": {"k": "-", "vs": [], "ow": False, "ctor": True},
+                  "pre": []})
+        recs.append(r)
     ctx.traces = 0   # the per-level validations above are repeated on the whole set below
     bad = ctx.validate("C16Trace", recs, jvms=16 if thorough else 8, chunk=2500)
     ctx.extra["exploration_stopped_after_rejected_transition_at_depth"] = stopped_at
